@@ -155,6 +155,14 @@ theorem cap_spec (e : Op K D) (h : WF e = true) (s : Nat) (hs : s < 4) :
     simp only [cap, Requires]
     rw [invCap_bit _ (cap_lt o hw) s hs, ih hw s hs, ih hw _ (xor_lt s hs 2 (by decide))]
 
+/-- non-vacuity of `cap_spec`: a well-formed expression with a chain, an inverse adapter, a diagonal with pending
+    transformation, a difference and an InversionEnabler; its capability (TIMES and INVERSE_TIMES) follows the rule -/
+example :
+    let e : Op Nat Unit := Op.invEnabler (Op.sum [Op.adapter (Op.chain [Op.leaf 0 5 0 0, Op.scaling 0 2 0]) 2,
+      Op.diag 0 () 1 0] [false, true])
+    WF e = true ∧ cap e = 5 ∧ Requires e 0 = true ∧ Requires e 2 = true ∧ Requires e 1 = false := by
+  simp [WF, cap, Requires, adapterCap, invEnablerCap, capTable, addInverse, sumCap, chainCap, allOps, TIMES, ADJOINT_TIMES]
+
 end capability
 
 /-! ### Part 2 — dense action of the operator classes (Mathlib matrices over any star field, any index type)
@@ -625,6 +633,162 @@ theorem mkChainU_sound (hre : ∀ c, isReal c = true → re c = c) (fuel : Nat) 
     rw [heq]; simp [mprod_singleton]
   · rename_i l hl
     exact den_chain_mprod isReal re blocks leaf _ s hs hL2
+
+/-! ### Part 5 — SumOperator.simplify: the sign bookkeeping of its rewriting passes (TIMES and ADJOINT_TIMES)
+
+`ssum l s` is the signed sum of the actions of a list of (operator, negated?) pairs.  Proved: absorbing the summed scalings into
+the first diagonal with matching sampling dtype (with its sign), and the diagonal merge (inner and outer loop), preserve it.
+Not yet proved as a whole pass: un-nesting, grouping by (domain, target), block-diagonal merge, the final `-op` (see design.d). -/
+
+/-- signed sum of the actions of a list of (operator, negated?) pairs in mode `s` -/
+noncomputable def ssum (l : List (Op K (X → K) × Bool)) (s : Nat) : Matrix X X K :=
+  signedSum (l.map fun p => (den S p.1 (1 <<< s), p.2))
+
+theorem ssum_nil (s : Nat) : ssum isReal re blocks leaf [] s = 0 := by simp [ssum, signedSum]
+theorem ssum_cons (o : Op K (X → K)) (n : Bool) (l : List (Op K (X → K) × Bool)) (s : Nat) :
+    ssum isReal re blocks leaf ((o, n) :: l) s =
+      (if n then - den S o (1 <<< s) else den S o (1 <<< s)) + ssum isReal re blocks leaf l s := by
+  simp [ssum, signedSum]
+
+theorem modeScalar_neg2 (c : K) (s : Nat) (hs : s < 2) : modeScalar (-c) s = - modeScalar c s := by
+  interval_cases s <;> simp [modeScalar]
+theorem modeScalar_zero2 (s : Nat) (hs : s < 2) : modeScalar (0 : K) s = 0 := by
+  interval_cases s <;> simp [modeScalar]
+theorem modeScalar_add2 (a b : K) (s : Nat) (hs : s < 2) : modeScalar (a + b) s = modeScalar a s + modeScalar b s := by
+  interval_cases s <;> simp [modeScalar]
+
+/-- the summed scalings absorbed into the first diagonal operator with the same sampling dtype, **with its sign** -/
+theorem sumAbsorb_sound (c : K) (dt : Nat) (l : List (Op K (X → K) × Bool)) (s : Nat) (hs : s < 2)
+    (hd : ∀ p ∈ l, okC p.1 = true) :
+    ssum isReal re blocks leaf (sumAbsorb S c dt l).1 s + modeScalar (sumAbsorb S c dt l).2 s • (1 : Matrix X X K) =
+      ssum isReal re blocks leaf l s + modeScalar c s • (1 : Matrix X X K) ∧
+    (∀ p ∈ (sumAbsorb S c dt l).1, okC p.1 = true) := by
+  induction l with
+  | nil => simp [sumAbsorb]
+  | cons p ps ih =>
+    obtain ⟨o, n⟩ := p
+    have hd' : ∀ p ∈ ps, okC p.1 = true := fun x hx => hd x (by simp [hx])
+    by_cases hc : (isDiag o && dtOf o == dt) = true
+    · simp only [sumAbsorb, hc, if_true]
+      simp only [Bool.and_eq_true] at hc
+      obtain ⟨dm, d, t, dt', rfl⟩ := isDiag_cases o hc.1
+      have ht : t < 4 := by simpa [okC, diagOK, isBlock] using hd (Op.diag dm d t dt', n) (by simp)
+      have hz : (msem isReal re blocks leaf).kzero = (0 : K) := rfl
+      refine ⟨?_, ?_⟩
+      · rw [ssum_cons, ssum_cons, hz, modeScalar_zero2 s hs, zero_smul, add_zero,
+          diagAdd_sound isReal re blocks leaf dm d t dt' _ s ht hs]
+        cases n
+        · simp only [Bool.false_eq_true, if_false]; abel
+        · simp only [if_true]
+          have : (msem isReal re blocks leaf).kneg c = -c := rfl
+          rw [this, modeScalar_neg2 c s hs]
+          simp only [neg_smul, neg_add, neg_neg]; abel
+      · intro p hp
+        simp only [List.mem_cons] at hp
+        rcases hp with rfl | hp
+        · simp [diagAdd, okC, diagOK, isBlock]
+        · exact hd' p hp
+    · have hc' : (isDiag o && dtOf o == dt) = false := by simpa using hc
+      obtain ⟨ih1, ih2⟩ := ih hd'
+      simp only [sumAbsorb, hc', Bool.false_eq_true, if_false]
+      refine ⟨?_, ?_⟩
+      · rw [ssum_cons, ssum_cons, add_assoc, ih1, add_assoc]
+      · intro p hp
+        simp only [List.mem_cons] at hp
+        rcases hp with rfl | hp
+        · exact hd (o, n) (by simp)
+        · exact ih2 p hp
+
+
+theorem diagCombineSum_isDiag (a b : Op K (X → K)) (na nb : Bool) (ha : isDiag a = true) (hb : isDiag b = true) :
+    isDiag (diagCombineSum S a b na nb) = true ∧ okC (diagCombineSum S a b na nb) = true := by
+  obtain ⟨dm, d, t, dt, rfl⟩ := isDiag_cases a ha
+  obtain ⟨dm2, d2, t2, dt2, rfl⟩ := isDiag_cases b hb
+  simp [diagCombineSum, isDiag, okC, diagOK, isBlock]
+
+/-- inner loop of the diagonal merge of SumOperator.simplify: later diagonals with the same sampling dtype are merged into the
+    accumulator with their signs; the accumulator's own sign becomes "+" after the first merge -/
+theorem sumAbsorbDiags_sound (dt0 : Nat) (acc : Op K (X → K)) (accneg : Bool) (l : List (Op K (X → K) × Bool)) (s : Nat)
+    (hs : s < 2) (hacc : isDiag acc = true) (hokacc : okC acc = true) (hd : ∀ p ∈ l, okC p.1 = true) :
+    (if (sumAbsorbDiags S dt0 acc accneg l).2.1 then - den S (sumAbsorbDiags S dt0 acc accneg l).1 (1 <<< s)
+      else den S (sumAbsorbDiags S dt0 acc accneg l).1 (1 <<< s)) +
+        ssum isReal re blocks leaf (sumAbsorbDiags S dt0 acc accneg l).2.2 s =
+      (if accneg then - den S acc (1 <<< s) else den S acc (1 <<< s)) + ssum isReal re blocks leaf l s ∧
+    okC (sumAbsorbDiags S dt0 acc accneg l).1 = true ∧
+    (∀ p ∈ (sumAbsorbDiags S dt0 acc accneg l).2.2, okC p.1 = true) := by
+  induction l generalizing acc accneg with
+  | nil =>
+    refine ⟨?_, hokacc, by simp [sumAbsorbDiags]⟩
+    cases accneg <;> simp [sumAbsorbDiags, ssum_nil]
+  | cons p ps ih =>
+    obtain ⟨o, n⟩ := p
+    have hd' : ∀ p ∈ ps, okC p.1 = true := fun x hx => hd x (by simp [hx])
+    by_cases hc : (isDiag o && dtOf o == dt0) = true
+    · simp only [sumAbsorbDiags, hc, if_true]
+      simp only [Bool.and_eq_true] at hc
+      obtain ⟨h1, h2⟩ := diagCombineSum_isDiag isReal re blocks leaf acc o accneg n hacc hc.1
+      obtain ⟨ih1, ih2, ih3⟩ := ih (diagCombineSum S acc o accneg n) false h1 h2 hd'
+      refine ⟨?_, ih2, ih3⟩
+      rw [ih1, ssum_cons]
+      obtain ⟨dm, d, t, dt, rfl⟩ := isDiag_cases acc hacc
+      obtain ⟨dm2, d2, t2, dt2, rfl⟩ := isDiag_cases o hc.1
+      have ht : t < 4 := by simpa [okC, diagOK, isBlock] using hokacc
+      have ht2 : t2 < 4 := by simpa [okC, diagOK, isBlock] using hd (Op.diag dm2 d2 t2 dt2, n) (by simp)
+      simp only [Bool.false_eq_true, if_false]
+      rw [diagCombineSum_sound isReal re blocks leaf dm dm2 d d2 t t2 dt dt2 accneg n s ht ht2 hs, add_assoc]
+    · have hc' : (isDiag o && dtOf o == dt0) = false := by simpa using hc
+      obtain ⟨ih1, ih2, ih3⟩ := ih acc accneg hacc hokacc hd'
+      simp only [sumAbsorbDiags, hc', Bool.false_eq_true, if_false]
+      refine ⟨?_, ih2, ?_⟩
+      · rw [ssum_cons, ssum_cons, ← add_assoc, add_comm _ (if n = true then _ else _), add_assoc, ih1]
+        abel
+      · intro p hp
+        simp only [List.mem_cons] at hp
+        rcases hp with rfl | hp
+        · exact hd (o, n) (by simp)
+        · exact ih3 p hp
+
+/-- **diagonal merge of SumOperator.simplify preserves the signed sum** (TIMES and ADJOINT_TIMES) -/
+theorem sumMergeDiags_sound (l : List (Op K (X → K) × Bool)) (s : Nat) (hs : s < 2) (hd : ∀ p ∈ l, okC p.1 = true) :
+    ssum isReal re blocks leaf (sumMergeDiags S l) s = ssum isReal re blocks leaf l s ∧
+    (∀ p ∈ sumMergeDiags S l, okC p.1 = true) := by
+  fun_induction sumMergeDiags S l with
+  | case1 => exact ⟨rfl, hd⟩
+  | case2 o n rest ho r ih =>
+    have hd' : ∀ p ∈ rest, okC p.1 = true := fun x hx => hd x (by simp [hx])
+    obtain ⟨h1, h2, h3⟩ := sumAbsorbDiags_sound isReal re blocks leaf (dtOf o) o n rest s hs ho (hd (o, n) (by simp)) hd'
+    obtain ⟨ih1, ih2⟩ := ih h3
+    refine ⟨?_, ?_⟩
+    · rw [ssum_cons, ih1, h1, ssum_cons]
+    · intro p hp
+      simp only [List.mem_cons] at hp
+      rcases hp with rfl | hp
+      · exact h2
+      · exact ih2 p hp
+  | case3 o n rest ho ih =>
+    have hd' : ∀ p ∈ rest, okC p.1 = true := fun x hx => hd x (by simp [hx])
+    obtain ⟨ih1, ih2⟩ := ih hd'
+    refine ⟨?_, ?_⟩
+    · rw [ssum_cons, ssum_cons, ih1]
+    · intro p hp
+      simp only [List.mem_cons] at hp
+      rcases hp with rfl | hp
+      · exact hd (o, n) (by simp)
+      · exact ih2 p hp
+
+
+/-- non-vacuity of the hypotheses of `mkChainU_sound`: a diagonal with pending adjoint, a nested chain with a scaling, a leaf -/
+example : (∀ o ∈ chainFlatten [Op.diag 0 (fun _ : Fin 2 => (2 : ℚ)) 1 0, Op.chain [Op.scaling 0 (3 : ℚ) 0, Op.leaf 7 15 0 0]],
+    okC o = true) ∧
+    (∀ o ∈ [Op.diag 0 (fun _ : Fin 2 => (2 : ℚ)) 1 0, Op.chain [Op.scaling 0 (3 : ℚ) 0, Op.leaf 7 15 0 0]],
+      ∀ l, o = Op.chain l → l ≠ []) := by
+  constructor
+  · simp [chainFlatten, okC, diagOK, isBlock]
+  · intro o ho l hl
+    simp only [List.mem_cons, List.not_mem_nil, or_false] at ho
+    rcases ho with rfl | rfl
+    · cases hl
+    · injection hl with hl; subst hl; simp
 
 end matrix
 
